@@ -3,7 +3,7 @@
    proved; the end-to-end invariance of tensions and pressures is evaluated by harness/props/c06.py.  Two refutations are
    known findings: the code's per-component sign rule (D1, Props/C02.v) and the multiplier column (D3, below). *)
 From Coq Require Import Reals List.
-From Forsys Require Import Model.Num Model.ForceSys Model.Velocity Proofs.ForceSysProofs Proofs.VelocityProofs.
+From Forsys Require Import Model.Num Model.Cert Model.ForceSys Model.Velocity Proofs.CertProofs Proofs.ForceSysProofs Proofs.VelocityProofs Proofs.RelabelProofs.
 
 Theorem C06_oriented_tangent_rotation : forall c s ux uy dx dy : R, (c * c + s * s = 1)%R ->
   oriented_tangent ROps (fst (rot c s (ux, uy))) (snd (rot c s (ux, uy))) (fst (rot c s (dx, dy))) (snd (rot c s (dx, dy)))
@@ -31,6 +31,12 @@ Proof. exact adimensional_rhs_unit_invariant. Qed.
 Theorem C06_adimensional_ratio_invariant : forall k v m : R, (0 < k)%R -> m <> 0%R -> ((k * v) / (k * m) = v / m)%R.
 Proof. exact adimensional_ratio_invariant. Qed.
 
+(* for the whole system: rotating the tissue rotates every junction's two equations together, and the squared residual of the force-balance
+   equations (without the multiplier column, see the refutation above) is the same for every candidate tension vector *)
+Theorem C06_rotation_preserves_residual : forall n (c s : R) (x : list R) (M : list (list R)), (c * c + s * s = 1)%R ->
+  rows_ok n M -> Nat.even (length M) = true -> sqn ROps (mv ROps (rot_rows c s M) x) = sqn ROps (mv ROps M x).
+Proof. exact rotation_preserves_residual. Qed.
+
 Print Assumptions C06_oriented_tangent_rotation.
 Print Assumptions C06_oriented_tangent_scale.
 Print Assumptions C06_oriented_tangent_reflection.
@@ -38,3 +44,4 @@ Print Assumptions C06_rotation_preserves_sqnorm.
 Print Assumptions C06_multiplier_column_refuted.
 Print Assumptions C06_adimensional_ratio_invariant.
 Print Assumptions C06_adimensional_rhs_unit_invariant.
+Print Assumptions C06_rotation_preserves_residual.
